@@ -1,5 +1,6 @@
 """C05 — header, POINT/ANALOG parameters and stored data always agree."""
-from lib import harness, gen, oracles
+import os
+from lib import harness, gen, oracles, c3dspec, filegen
 from lib.harness import hx
 from checks import common, apihist
 from checks.apihist import rand_lit, conforming_history, trim
@@ -41,7 +42,28 @@ def run(rep, work, rng, tier):
         # reload-then-edit is added by the C01/C04 corpora; here every call is followed by a snapshot
         cases.append(('h%d' % i, b.lines))
         for k in b.kinds: kinds[k] = kinds.get(k, 0) + 1
-    (cres, cown, _), (mres, mown, _) = harness.run_both(cases, work, model_env={'EZ_INV': '1'})
+    # reload-then-edit: objects loaded from well-formed files (first frame numbers other than 1, events, sparse ids), then
+    # conforming appends / replacements / columns with a snapshot after every call
+    shared = work.sub('shared')
+    for i in range(n // 3):
+        L = filegen.make_layout(rng)
+        c = filegen.make_content(rng)
+        npts, nch, nsub = c['npoints'], c['nchan'], (c['nsub'] or 1)
+        # labels exactly as many as points/channels so that appended frames can conform
+        c = filegen.make_content(rng, dict(npoints=npts, nchan=nch, nsub=nsub, empty_analog=False, nlabels=npts, nalabels=nch, nframes=rng.choice([1, 2, 4]) if (npts or nch) else 0, first=rng.choice([1, 2, 11, 300])))
+        name = 'ld%d.c3d' % i; open(os.path.join(shared, name), 'wb').write(c3dspec.encode(L, c))
+        plab = [r[7] for r in c['records'] if r[0] == 'P' and r[2] == b'LABELS' and r[1] == [x for x in c['records'] if x[0] == 'G' and x[2] == b'POINT'][0][1]]
+        alab = [r[7] for r in c['records'] if r[0] == 'P' and r[2] == b'LABELS' and [x for x in c['records'] if x[0] == 'G' and x[2] == b'ANALOG'] and r[1] == [x for x in c['records'] if x[0] == 'G' and x[2] == b'ANALOG'][0][1]]
+        pn = plab[0] if plab else []; an = alab[0] if alab else []
+        lines = ['loadx 0 ' + name, 'snap 0']
+        if c['frames'] and not c.get('empty_analog'):
+            for _ in range(rng.choice([1, 2, 3])):
+                lit = apihist.rand_lit(rng, pn, an, c['nsub'])
+                tgt = rng.choice(['-', '-', '0', str(len(c['frames']))])
+                lines += ['frame 0 %s %s' % (tgt, lit.text()), 'snap 0']
+            if pn and rng.random() < 0.5: lines += ['point 0 ' + harness.hx(b'added'), 'snap 0']
+        cases.append(('ld%d' % i, lines)); kinds['reload-then-edit'] = kinds.get('reload-then-edit', 0) + 1
+    (cres, cown, _), (mres, mown, _) = harness.run_both(cases, work, model_env={'EZ_INV': '1'}, shared=shared)
     # the Coq predicate (extracted) evaluated on every model snapshot: lines "I b0..b9"; strip them before comparing
     coq_reports = {}
     for cid in list(mres):
@@ -56,7 +78,7 @@ def run(rep, work, rng, tier):
     NAMES = ['points_hdr', 'points_frames', 'frames_hdr', 'frames_stored', 'subframes', 'analogs_hdr', 'analogs_meas', 'analogs_frames', 'label_counts', 'label_order']
     for cid, lines in cases:
         cl, cs = c.get(cid, ([], 'missing'))
-        ops = harness.split_ops(lines, cl); hist = []; si = 0
+        ops = harness.split_ops(lines, cl); hist = []; si = 0; baseline = None
         for ln, out in ops:
             hist.append(ln)
             if ln.startswith('snap') and out and out[0].startswith('H '):
@@ -74,6 +96,11 @@ def run(rep, work, rng, tier):
                             rep.violation('oracle-mirror', 'Coq inv_report %s and the Python mirror %s disagree on a snapshot' % (dict(zip(NAMES, rpt[si])), failing),
                                           script=[l for l in hist if not l.startswith('snap')] + ['snap 0'], theorem='inv_b (Spec_Inv.v)', found_input=False)
                 si += 1
+                if cid.startswith('ld'):
+                    # a loaded file's points and channels were not declared by name through the API: the per-name lists
+                    # (":... entries", "missing") that the FILE came without are not demanded of the states that follow
+                    if baseline is None: baseline = set(x for x in failing if x.endswith('entries!=count') or x.endswith(' missing') and 'mandatory' not in x and 'RATE' not in x)
+                    failing = [x for x in failing if x not in baseline]
                 for comp in failing:
                     comps[comp] = comps.get(comp, 0) + 1
                     sig = classify(s, comp)
